@@ -39,13 +39,14 @@ MODEL = dict(
     mc=[
         # the code as it is, limits out of reach; emits the behaviours that are replayed on the real code
         dict(name="all", module="MC_Registries",
-             constants=dict(_u, **_far, **_dp, Fls=FLS, BUG="none", EmitEvery=12),
-             thorough=dict(_dp_thorough, BBn=3, EmitEvery=40),
+             constants=dict(_u, **_far, **_dp, Fls=FLS, ICn=1, BUG="none", EmitEvery=12),
+             thorough=dict(_dp_thorough, BBn=3, ICn=2, EmitEvery=40),
              invariants=["NoViolation", "Refines"]),
         # scaled limits: the element at the limit is accepted, one past it refused, in every order
         dict(name="capacity", module="MC_Registries",
-             constants=dict(_u, **_near, **_dp, Fls=FLS, BBn=3, ICn=3, BUG="none", EmitEvery=0),
-             thorough=dict(_dp_thorough),
+             constants=dict(_u, **_near, **dict(_dp, DpBinder=4), Fls=FLS, BBn=3, IC={"c1"}, ICn=3, BUG="none",
+                            EmitEvery=0),
+             thorough=dict(_dp_thorough, DpBinder=5, IC={"c1", "c2"}),
              invariants=["NoViolation", "Refines"]),
         # BUG_C20_KEYS: the pinned allow_key pushed the pair and then tested len >= limit
         _bug("nonvacuous", "keys", "keys_offbyone", LimRpk=3),
